@@ -1,4 +1,4 @@
-use crate::compiler::clvm::truthy;
+use crate::compiler::clvm::{truthy, truthy_when_converted};
 use crate::compiler::prims::primquote;
 use crate::compiler::sexp::{AtomValue, NodeSel, SExp, SelectNode, ThisNode};
 use std::borrow::Borrow;
@@ -95,7 +95,7 @@ fn collapse_constant_condition(sexp: Rc<SExp>) -> (bool, Rc<SExp>) {
         return NodeSel::Cons(AtomValue::Here(&[1]), ThisNode)
             .select_nodes(cond.clone())
             .ok()
-            .map(|NodeSel::Cons(_, cond_quoted)| Some(truthy(cond_quoted)))
+            .map(|NodeSel::Cons(_, cond_quoted)| Some(truthy_when_converted(cond_quoted)))
             .unwrap_or_else(|| if !truthy(cond) { Some(false) } else { None })
             .map(|use_cond| if use_cond { (true, a) } else { (true, b) })
             .unwrap_or_else(|| (false, sexp));
